@@ -571,6 +571,14 @@ Definition window_exchange (c : session) (pre win : list (bool * keys)) (new0 : 
   do '(r, _) <- read_info flat_ops infoMigrate new0 (write_info infoMigrate c1);
   Ok (fst r, c2).
 
+(* ---- the server's proxy list ----------------------------------------------------------------
+   Session.proxies on the server: assigned from the list a message carries (registration in the
+   listener, handleInfoResult for MvProxy and MvRefresh); a message kind that carries NO list (sync,
+   syncMigrate: the MvTime / MvProfile / MvMigrate results, SvResync) leaves it alone. *)
+Definition server_proxy_view (k : Z) (before got : list pdata) : list pdata :=
+  if writes_proxy_list k then got else before.
+Definition strip_profile (p : pdata) : pdata := mkPData (pd_name p) (pd_addr p) [].
+
 (* ---- correspondence cases ----------------------------------------------------------------
    Long byte strings are described by a generator evaluated here (the harness builds the same
    bytes): byte i of gen_bytes n a b is (a + i*b) mod 256. *)
@@ -639,7 +647,9 @@ Inductive case :=
   (* one real task through muxHandleInternal and handleInfoResult *)
 | CSites (writes reads : list (site * kexpr))
 | CMigrate (old new0 : session) (localm : machine) (srv : session) (out : res (session * list pdata * session))
-| CWindow (c : session) (pre win : list (bool * keys)) (new0 : session) (out : res (session * session)).
+| CWindow (c : session) (pre win : list (bool * keys)) (new0 : session) (out : res (session * session))
+| CServerProxies (k : Z) (before got after : list pdata).
+  (* the server's Session.proxies before and after it absorbed a result of kind k that delivered got *)
   (* real key functions: forced re-key rolls before and inside the migration window; loaded session, old client *)
   (* a real in-process migration: MigrateProfile -> pipe -> LoadContext -> MvMigrate result -> server *)
   (* the call sites of writeDeviceInfo / readDeviceInfo found in the c2 sources of this run *)
@@ -695,6 +705,7 @@ Definition check (c : case) : bool :=
   | CWindow c pre win new0 out =>
     res_eqb (fun x y => session_eqb (fst x) (fst y) && session_eqb (snd x) (snd y))
             (match window_exchange c pre win new0 with Err _ => Err 1 | x => x end) out
+  | CServerProxies k before got after => list_eqb pdata_eqb (server_proxy_view k before got) after
   | CSites ws rs =>
     list_eqb sk_eqb ws (map (fun p => (pr_site p, pr_kind p)) producers) && list_eqb sk_eqb rs consumers
   | CProxyHist s0 h k r0 sp out rd =>
